@@ -49,6 +49,10 @@ def norm_built(line):
 def canon(op, line):
     """the order in which DeleteExpired meets the expired entries (hence the order
     of its callbacks) is the map's iteration order: unspecified, compared sorted"""
+    # what a callback observed of the cache while it ran (Count at that moment) is checked by the direct law
+    # checks of C06, not compared with the model (whose events carry no such observation)
+    if "firecnt:" in line:
+        line = re.sub(r" ?firecnt:-?\d+", "", line)
     if op.split()[1:2] == ["deleteexpired"] and " ; " in line:
         head, evs = line.split(" ; ", 1)
         return head + " ; " + " ".join(sorted(evs.split()))
